@@ -18,10 +18,18 @@ A *logical line* is a maximal run of tokens in which every token but the first s
 same physical line as its predecessor or follows a *continuation token*: a token whose text
 ends in backslash-newline, or a String token whose text ends in a newline (a line of a
 multi-line string literal; a multi-line docstring is a single token and needs no
-continuation).  One oddity of the code is part of the definition: the FIRST token of a logical
-line never acts as a continuation token (`_get_token_lines` only looks at the text of the
-tokens it appends to a line that is already begun).  In a file without continuation tokens the
-logical lines are the physical lines (`CL.C01py.startsLine_physical`).
+continuation).
+
+**`startsLine` is the CODE's notion of a logical line, not Python's.**  One oddity of the code is
+part of the definition: the FIRST token of a logical line never acts as a continuation token
+(`_get_token_lines` only looks at the text of the tokens it appends to a line that is already
+begun).  Python's own notion is `startsLogical` below (every continuation token continues the line).
+The two agree exactly when no logical line BEGINS with a continuation token
+(`CL.C01py.startsLine_eq_startsLogical`); a file in which one does - a line that starts with
+backslash-newline, legal Python - is outside `PyLayout`, and the code mis-measures it
+(`CL.C01py.line_beginning_with_backslash`: a finding about the code, not a property of Python).  In a
+file without continuation tokens the logical lines are the physical lines
+(`CL.C01py.startsLine_physical`).
 -/
 namespace CL
 
@@ -38,6 +46,17 @@ def startsLine (code : List Tok) : Nat → Bool
   | i + 1 =>
     match code[i]?, code[i + 1]? with
     | some p, some t => t.line != p.line && !(p.continuesLine && !startsLine code i)
+    | _, _ => false
+
+/-- `startsLogical code i`: token `i` is the first token of a logical line IN PYTHON'S SENSE: it is
+the first token of the file, or it stands on another physical line than token `i - 1` and token
+`i - 1` is not a continuation token.  (Not used by `PyLayout`; the reference point for
+`startsLine`, see `CL.C01py.startsLine_eq_startsLogical`.) -/
+def startsLogical (code : List Tok) : Nat → Bool
+  | 0 => true
+  | i + 1 =>
+    match code[i]?, code[i + 1]? with
+    | some p, some t => t.line != p.line && !p.continuesLine
     | _, _ => false
 
 /-- the index of the first token of the logical line on which token `i` stands: the last
@@ -118,6 +137,23 @@ theorem pyLayout_iff (code : List Tok) (fns : List Fn) :
 
 instance (code : List Tok) (fns : List Fn) : Decidable (PyLayout code fns) :=
   decidable_of_iff _ (pyLayout_iff code fns).symm
+
+/-! ## logical lines as lists of token indices (what `_get_token_lines` returns) -/
+
+/-- `l` lists the tokens `[a, b)` of one logical line -/
+structure LineOf (code : List Tok) (a b : Nat) (l : List Nat) : Prop where
+  lt : a < b
+  start : startsLine code a = true
+  inner : ∀ j, a < j → j < b → startsLine code j = false
+  head : l.head? = some a
+  last : l.getLast? = some (b - 1)
+  mem : ∀ x, x ∈ l ↔ a ≤ x ∧ x < b
+
+/-- `ls` are consecutive logical lines covering the tokens `[a, c)` -/
+inductive LineSeg (code : List Tok) : Nat → Nat → List (List Nat) → Prop
+  | nil (a : Nat) : LineSeg code a a []
+  | cons {a b c : Nat} {l : List Nat} {ls : List (List Nat)} :
+      LineOf code a b l → LineSeg code b c ls → LineSeg code a c (l :: ls)
 
 /-- a token list without continuation tokens: logical lines are physical lines -/
 def NoContinuation (code : List Tok) : Prop := ∀ t ∈ code, t.continuesLine = false
